@@ -47,6 +47,8 @@ def judgeConfig (fields : List String) : String :=
         ++ (if cls = "ok" ∧ rt ≠ "same" then " TRIP roundtrip_differs:" ++ rt else "")
         -- … and is well-formed in every field (the generator knows which field it damaged)
         ++ (if cls = "ok" ∧ sok ≠ "1" then " TRIP accepted_malformed:" ++ str defect else "")
+        -- … and what is not accepted is not saved (`Write` validates; the stored configuration stays what it was)
+        ++ (if cls ≠ "ok" ∧ rt ≠ "write-refused" then " TRIP accepted_malformed:" ++ rt else "")
       if mcls = cls then s!"ok {str defect}-{cls} 1{trip}" else s!"DIFF config model={mcls} impl={cls} defect={str defect}{trip}"
     | _, _, _, _, _, _ => "BADLINE config parse"
   | _ => "BADLINE config fields"
